@@ -19,6 +19,71 @@ def _eq(ctx, what, got, want, inp):
                  f'{np.asarray(want).shape})', dict(inp, expr=what))
 
 
+def xarray_keys(ctx, model, rng, fi, V, n, inp):
+    """K: Model/Xarray (the backend's `_raw_indexing_method`: bounding box read + strides on the decoded box) vs the real
+    method, on keys of basic indexers (integers incl. negative, slices with positive step incl. omitted / negative /
+    out-of-range bounds); and the result vs numpy indexing of the decoded volume with the same key"""
+    from seismic_zfp.sgz_xarray import SeismicZfpBackendArray
+    from seismic_zfp.read import SgzReader
+    r = SgzReader(fi.path)
+    calls = []
+    orig = r.read_subvolume
+
+    def rec(**kw):
+        calls.append(tuple(int(kw[k]) for k in ('min_il', 'max_il', 'min_xl', 'max_xl', 'min_z', 'max_z')))
+        return orig(**kw)
+    r.read_subvolume = rec
+    arr = SeismicZfpBackendArray(tuple(n), np.float32, r)
+    Nn = lambda v: 'N' if v is None else str(int(v))
+    try:
+        for _ in range(8):
+            key, words = [], []
+            for m in n:
+                if rng.random() < .3:
+                    k = int(rng.integers(-m, m))
+                    key.append(k)
+                    words.append(f'i:{k}')
+                else:
+                    a, b = (int(v) for v in rng.integers(-m - 2, m + 3, size=2))
+                    a = [None, a][int(rng.integers(2))]
+                    b = [None, b][int(rng.integers(2))]
+                    c = [None, 1, 2, 3, 5][int(rng.integers(5))]
+                    key.append(slice(a, b, c))
+                    words.append(f's:{Nn(a)}:{Nn(b)}:{Nn(c)}')
+            calls.clear()
+            ctx.stats['corr_requests'] += 1
+            ctx.stats['xarray_keys'] += 1
+            req = f'xr {n[0]} {n[1]} {n[2]} ' + ' '.join(words)
+            ans = model.ask(req)
+            want = V[tuple(key)]
+            try:
+                got = np.asarray(arr._raw_indexing_method(tuple(key)))
+            except Exception as e:  # noqa
+                ctx.fail(f'xarray backend key {words} raised {type(e).__name__}: {str(e)[:100]}', dict(inp, key=words))
+                continue
+            d = dict(inp, key=words)
+            ctx.case((tuple(n), tuple(words)))
+            if got.shape != want.shape or (want.size and not readops.same(got, want)):
+                ctx.fail(f'xarray backend key {words}: result is not the decoded volume indexed with the same key '
+                         f'(shape {got.shape} vs {want.shape})', d)
+            parts = [x.strip() for x in ans.split('|')]
+            if len(parts) != 4 or 'err' in parts:
+                ctx.corr_fail('Model.Xarray', req, ans, 'a result', d)
+                continue
+            pos = [[int(v) for v in p_.split()] for p_ in parts[:3]]
+            mbox = parts[3]
+            rbox = 'none' if not calls else ' '.join(str(v) for v in calls[0])
+            sel = V[np.ix_(*[np.asarray(p_, dtype=np.int64) for p_ in pos])] if all(pos) else None
+            if sel is not None:
+                sel = sel[tuple(0 if not isinstance(k, slice) else slice(None) for k in key)]
+            ok = (mbox == rbox and len(calls) <= 1 and
+                  ((sel is None and got.size == 0) or (sel is not None and sel.shape == got.shape and readops.same(got, sel))))
+            if not ok:
+                ctx.corr_fail('Model.Xarray', req, ans, f'box {rbox}; shape {got.shape}', d)
+    finally:
+        r.close()
+
+
 def run(ctx, rng, model=None, n_quick=10, n_thorough=120):
     n_files = n_quick if ctx.quick else n_thorough
     for k in range(n_files):
@@ -113,3 +178,5 @@ def run(ctx, rng, model=None, n_quick=10, n_thorough=120):
                     _eq(ctx, 'xarray data[:, x0:x1:c, s]', lambda: ds.data[:, x0:x1:c, s].values, V[:, x0:x1:c, s], inp)
                 finally:
                     ds.close()
+                if model is not None:
+                    xarray_keys(ctx, model, rng, fi, V, n, inp)
